@@ -578,7 +578,8 @@ def oracle_c16(line, m, impl, model):
             le = s.rfind(b"\n", 0, b - 1) + 1
             pre = s[le:b - 1]
             if all(ch < 0x80 for ch in pre):
-                col = 9 + len(expand_tabs(pre))
+                # a last removed character that is a tab occupies four columns: the marker stands under the last of them
+                col = 9 + len(expand_tabs(pre)) + (3 if s[b - 1:b] == b"\t" else 0)
                 if bl[-1] != b" " * col + "‾end".encode():
                     return f"item {idx}: end marker at column {len(bl[-1]) - 6}, expected {col}"
     return None
@@ -896,6 +897,22 @@ def big_line_number_cases(prefix="big"):
     cfg = G.Cfg("tl", "rm", "+00:00", G.NOW, ("x",))
     s = "\n" * 9_999_998 + 'a\n<rm name="x">y</rm>\n\t<rm name="other">\n\tz\n\t</rm>\n'
     return [G.dcase(prefix + "0", "<", ">", s, cfg)], {prefix + "0": {"stream": "big", "impl_only": True}}
+
+
+def wide_column_cases(prefix="wide"):
+    """regions that begin / end more than 65,535 columns into a line (a one-line minified bundle with a tag near its
+    end): the marker lines of the list are padded to that width.  Implementation and oracle only."""
+    cfg = G.Cfg("tl", "rm", "+00:00", G.NOW, ("x",))
+    filler = "var a=1;" * 8750
+    docs = ["first\n" + filler + '<rm name="x">legacy();</rm>done();\nlast\n',
+            "\t" + filler[:65528] + '<rm name="x">y</rm>\n',
+            filler[:65400] + '<rm name="other">\n' + filler[:65600] + "</rm>z"]
+    cases, meta = [], {}
+    for i, d in enumerate(docs):
+        cases.append(G.dcase(f"{prefix}{i}", "<", ">", d, cfg))
+        # too slow in the extracted model (unary positions: about a minute per 20,000 columns, growing cubically)
+        meta[f"{prefix}{i}"] = {"stream": "wide", "impl_only": True}
+    return cases, meta
 
 
 def gen_docs(rng, tier, n_quick=2500, n_thorough=40000, **kw):
@@ -1968,7 +1985,7 @@ def gen_c20(rng, tier):
         src = f'a<!-- <removal-marker name="{name}"> -->x<!-- </removal-marker> -->b'
         cases.append(kcase(f"d{j}", "C", False, "S", "O", None, None, None, None, 0, G.NOW, None, [], None, src))
         meta[f"d{j}"] = {"stream": "cli-defaults", "expect_stdout": src}
-    return merge((cases, meta), cli_current_cases())
+    return merge((cases, meta), cli_current_cases(), cli_spelling_cases())
 
 
 def run_cli_cases(cases, work, tag):
@@ -2322,7 +2339,32 @@ def oracle_c19(line, m, impl, model):
     return None
 
 
+def cli_spelling_cases(prefix="ks"):
+    """the command line under delimiter and tag-name spellings with characters a shell-facing tool might treat
+    specially (back slash sequences, quotes, a leading dash, '=', '%', '$', glob characters): the binary takes them
+    literally, like the library"""
+    cases, meta = [], {}
+    pool = [("\\todo{", "}"), ("\\n[", "]\\t"), ("\\r<", ">\\\\"), ("%[", "]%"), ("--[", "]--"), ("-x", "x-"), ("=begin", "=end"), ("$(", ")"),
+            ("*{", "}*"), ("'<", ">'"), ('"<', '>"'), ("@@", "@@"), ("\\", "\\"), ("{%", "%}")]
+    names = [("tl", "rm"), ("-t", "-r"), ("t\\n", "r\\t"), ("%t", "$r")]
+    k = 0
+    for ds, de in pool:
+        for tl, rm in names:
+            if any(x in ds + de for x in (tl, rm)) or any(d in tl + " " + rm for d in (ds, de)):
+                continue
+            src = (f"line one\n{ds} {rm} name=\"x\" {de}\nobsolete\n{ds} /{rm} {de}\nline two\n"
+                   f"{ds} {tl} to=\"2100-01-01 00:00:00\" {de}kept{ds} /{tl} {de}\n{ds} {tl} to=\"2000-01-01 00:00:00\" {de}gone{ds} /{tl} {de}end\n")
+            exp = f"line one\nline two\n{ds} {tl} to=\"2100-01-01 00:00:00\" {de}kept{ds} /{tl} {de}\nend\n"
+            cid = f"{prefix}{k}"
+            k += 1
+            cases.append(kcase(cid, "C", False, "F" if k % 2 else "S", "O", ds, de, tl, "+00:00", 0, G.NOW, rm, ["x"], None, src))
+            meta[cid] = {"stream": "cli-spelling", "expect_stdout": exp}
+    return cases, meta
+
+
 def oracle_c18(line, m, impl, model):
+    if line.startswith("K "):
+        return oracle_c20(line, m, impl, model)
     if not impl_ok(impl, ["clean", "lista_json"]):
         return "clean or list_all panicked"
     return None   # the pair comparison needs both members: pair_check_c18
@@ -2393,7 +2435,7 @@ RULE_DOC = ("corpus (fixtures + recorded witnesses) first, then bounded-exhausti
 
 PROPS = {}
 _P = {
-    "C01": mk(lambda rng, t: merge(gen_docs(rng, t, 2500, 40000, p_mut=0.5, safe=False), gen_front(rng, "quick"), big_line_number_cases()),
+    "C01": mk(lambda rng, t: merge(gen_docs(rng, t, 2500, 40000, p_mut=0.5, safe=False), gen_front(rng, "quick"), big_line_number_cases(), wide_column_cases()),
               ALL_DOC_STAGES, oracle_c01, "panic-freedom: every stage of every case compared incl. the PANIC outcome (dev profile, overflow checks on)", RULE_DOC,
               nontrivial_tok),
     "C02": mk(lambda rng, t: gen_docs(rng, t, p_mut=0.3), DOC_STAGES_CLEAN, oracle_c02, "no over-removal", RULE_DOC),
@@ -2413,11 +2455,11 @@ _P = {
     "C13": mk(gen_c13, ["seam", "seam4", "find", "clean", "removed"], oracle_c13, "block-style removal", RULE_DOC, nontrivial_tok),
     "C14": mk(lambda rng, t: merge(gen_docs(rng, t, p_mut=0.3), gen_c11(rng, "quick")), DOC_STAGES_CLEAN, oracle_c14, "whitespace confined", RULE_DOC),
     "C15": mk(lambda rng, t: gen_docs(rng, t, p_mut=0.1), ["markers", "list_json", "list_pretty", "clean"], oracle_c15, "list = clean regions", RULE_DOC),
-    "C16": mk(lambda rng, t: merge(gen_docs(rng, t, p_mut=0.2), big_line_number_cases()), ["list_json", "list_pretty", "lista_json", "lista_pretty"], oracle_c16, "list rendering", RULE_DOC),
+    "C16": mk(lambda rng, t: merge(gen_docs(rng, t, p_mut=0.2), big_line_number_cases(), wide_column_cases()), ["list_json", "list_pretty", "lista_json", "lista_pretty"], oracle_c16, "list rendering", RULE_DOC),
     "C17": mk(lambda rng, t: merge(gen_docs(rng, t, p_mut=0.1, kinds=["ready_tl", "pending_tl", "pending_tl", "pending_rm", "ready_rm", "skip"]),
                                    wrapper_tag_cases(rng, 300 if t == "quick" else 3000)),
               ["markers_all", "markers", "lista_json", "list_json"], oracle_c17, "list_all merge", RULE_DOC),
-    "C18": mk(gen_c18, ["tok", "tag", "tree", "markers", "clean", "lista_json"], oracle_c18, "spelling independence", "pairs: one abstract document in the placeholder spelling and in a spelling from the pool (13 delimiter pairs x 4 tag-name pairs)"),
+    "C18": mk(lambda rng, t: merge(gen_c18(rng, t), cli_spelling_cases()), ["tok", "tag", "tree", "markers", "clean", "lista_json", "cli"], oracle_c18, "spelling independence", "pairs: one abstract document in the placeholder spelling and in a spelling from the pool (13 delimiter pairs x 4 tag-name pairs)"),
     "C19": mk(gen_c19, ["clean"], oracle_c19, "idempotence and histories", "AST documents with expiry times from an ordered set; chains of 1..4 configurations", post=post_c19),
 }
 
